@@ -4,6 +4,8 @@
 // stdout, one line per case: space-separated records  M:i:off:byte:line:col:at:bol:eol:lb:ll
 //   M = B  position() after in.bump( i )            (odd i: i single in.bump() calls)
 //       Y  position() after parse< bytes< i > >( in ), i <= 12
+//       U  position behind the i-th `a` (and at the start), taken by an action in seq< mark, star< seq< until< one< 'a' > >, mark > > >:
+//          the one-argument until skips the bytes in between itself
 //       R  like T, but the walk runs inside rematch< until< eof >, … > (on the inner input that rematch constructs)
 //       T  position of the i-th `mark` in seq< mark, star< sor< eol, any >, mark > >, taken by an
 //          action *during* the parsing run; the helpers are called from inside the action
@@ -128,6 +130,9 @@ struct WalkState
 // inside a rematch refer to the same bytes of the outer input
 struct rewalk : pegtl::rematch< pegtl::until< pegtl::eof >, walk > {};
 
+// positions behind until< R > in its one-argument form, which skips the bytes itself (line breaks included)
+struct uwalk : pegtl::seq< mark, pegtl::star< pegtl::seq< pegtl::until< pegtl::one< 'a' > >, mark > > > {};
+
 template< typename Rule >
 struct walk_action : pegtl::nothing< Rule > {};
 
@@ -174,6 +179,15 @@ static std::string run_case( const Cfg& c )
       const bool ok = pegtl::parse< rewalk, walk_action >( *in, s );
       if( !ok ) {
          out += " R-FAILED";
+      }
+   }
+   {
+      auto in = make< TM, Eol >( c );
+      WalkState< typename Input< TM, Eol >::type > s{ in.get(), &c, &out };
+      s.mode = 'U';
+      const bool ok = pegtl::parse< uwalk, walk_action >( *in, s );
+      if( !ok ) {
+         out += " U-FAILED";
       }
    }
    return out;
